@@ -84,6 +84,12 @@ func accountingOracle(t *clustermc.Transition) []engine.Violation {
 	return out
 }
 
+func deepStdQueues() queueSetup {
+	return queueSetup{"org>dept>q1+1", func(b *world.Builder) {
+		b.GQueue("org", "", -1, -1, 1).GQueue("dept", "org", -1, -1, 1).GQueue("qa", "dept", 1, -1, 1).GQueue("qb", "dept", 1, -1, 1)
+	}}
+}
+
 func C14() *clustermc.Family {
 	return &clustermc.Family{
 		Property: "C14",
@@ -92,6 +98,10 @@ func C14() *clustermc.Family {
 			out = append(out, shareScenarios(tier)...)
 			cfgs := []schedrun.Config{{}, {Placement: "spread", ConsolidatingReclaim: true}}
 			out = append(out, wlScenarios(tier, gangMenu(), gangLayouts(tier), []queueSetup{stdQueues()}, cfgs, 3, 3)...)
+			// the same workloads two levels further down a deeper queue tree (org -> dept -> qa|qb): the
+			// per-queue counters of every ancestor are compared with the recomputation, not only the
+			// leaf's and its parent's
+			out = append(out, wlScenarios(tier, gangMenu(), gangLayouts(tier), []queueSetup{deepStdQueues()}, cfgs[:1], 3, 3)...)
 			lay := []nodeLayout{{"1n-2gpu", []world.NodeOpt{{Name: "n1", CPU: "16", Mem: "32Gi", GPUs: 2, GPUMemMiB: 40000}}}}
 			out = append(out, wlScenarios(tier, victimMenu(), lay, victimQueues()[:1], cfgs, 3, 3)...)
 			for i := range out {
